@@ -42,6 +42,8 @@ class Stage:
         self.harness_ok = True
         self.harness_log = ''
         self.cmds = []
+        self.facts_changed = []     # names of regenerated facts that differ from the pinned facts
+        self.pinned = None          # driver built from the pinned facts (used when facts_changed)
 
     def run(self):
         os.makedirs(BUILD, exist_ok=True)
@@ -65,6 +67,26 @@ class Stage:
         rc, out = sh(cmd)
         if rc != 0:
             self.facts_ok, self.facts_log = False, out
+            return
+        self.facts_changed = facts_diff(V + '/pinned/Facts.lean', LEAN + '/CorsVerif/Gen/Facts.lean')
+        if self.facts_changed:
+            self._pinned_driver()
+
+    def _pinned_driver(self):
+        """The driver of the model as verified against the pinned facts (built by tools/setup.sh, or here)."""
+        pinned = BUILD + '/driver.pinned'
+        src = V + '/pinned/Facts.lean'
+        if not os.path.exists(pinned) or os.path.getmtime(pinned) < os.path.getmtime(src):
+            gen = LEAN + '/CorsVerif/Gen/Facts.lean'
+            cur = open(gen).read()
+            try:
+                open(gen, 'w').write(open(src).read())
+                rc, out = sh(['lake', 'build', 'driver'], cwd=LEAN, timeout=3000)
+                if rc == 0:
+                    shutil.copy(LEAN + '/.lake/build/bin/driver', pinned)
+            finally:
+                open(gen, 'w').write(cur)
+        self.pinned = pinned if os.path.exists(pinned) else None
 
     def _lake(self):
         target = 'CorsVerif.Props.' + self.prop
@@ -87,6 +109,27 @@ class Stage:
         rc, out = sh(cmd)
         if rc != 0:
             self.harness_ok, self.harness_log = False, out
+
+
+def facts_diff(pinned_path, gen_path):
+    """Names of the `def`s whose text differs between the pinned and the regenerated facts."""
+    def defs(path):
+        d, name = {}, None
+        try:
+            for line in open(path):
+                m = re.match(r'def (\S+)', line)
+                if m:
+                    name = m.group(1)
+                    d[name] = ''
+                if name:
+                    d[name] += line
+        except FileNotFoundError:
+            return None
+        return d
+    a, b = defs(pinned_path), defs(gen_path)
+    if a is None or b is None:
+        return []
+    return sorted(k for k in set(a) | set(b) if a.get(k) != b.get(k))
 
 
 def audit_axioms(prop):
@@ -311,6 +354,16 @@ def run_replay_file(stage, path, workdir, tag):
     return run_model(stage, cases, impl, model)
 
 
+def run_pinned(stage, cases_path, out_path):
+    """Answers of the model built from the pinned facts on the same cases (used when the regenerated facts differ)."""
+    with open(cases_path, 'rb') as fin, open(out_path, 'wb') as fout:
+        p = subprocess.run([stage.pinned], stdin=fin, stdout=fout, stderr=subprocess.PIPE, timeout=3000)
+    if p.returncode != 0:
+        raise RuntimeError('pinned driver failed: ' + p.stderr.decode('utf-8', 'replace')[:2000])
+    m = open(out_path).read().split('\n')
+    return m[:-1] if m and m[-1] == '' else m
+
+
 def run_model(stage, cases, impl, model):
     with open(cases, 'rb') as fin, open(model, 'wb') as fout:
         p = subprocess.run([stage.driver], stdin=fin, stdout=fout, stderr=subprocess.PIPE, timeout=3000)
@@ -336,8 +389,11 @@ def C(suite, mode='full', kind='tie', only=None):
 PROPS = {
     'C01': dict(suites=[('tree', 1500, 60000), ('lex', 1500, 40000), ('serve', 3000, 60000)],
                 cmps=[C('tree', 'treebits', 'spec'), C('lex', 'full', 'tie', only=('parse',)), C('serve', 'bitsPA', 'spec')]),
-    'C02': dict(suites=[('intents', 6000, 200000), ('serve', 3000, 80000)], cmps=[C('intents', 'firsttoken', 'spec'), C('serve', 'full', 'tie')]),
-    'C03': dict(suites=[('serve', 6000, 150000)], cmps=[C('serve', 'c03', 'tie')]),
+    'C02': dict(suites=[('intents', 6000, 200000), ('serve', 3000, 80000), ('tree', 500, 20000), ('acrh', 1000, 40000)],
+                cmps=[C('intents', 'firsttoken', 'spec'), C('serve', 'full', 'tie'), C('tree', 'treebits', 'spec'), C('acrh', 'full', 'spec')]),
+    # C03 speaks of *allowed* origins: the ties of the two origin-decision components (tree, request-side lexer) belong to it
+    'C03': dict(suites=[('serve', 6000, 150000), ('tree', 800, 30000), ('lex', 800, 30000)],
+                cmps=[C('serve', 'c03', 'tie'), C('tree', 'treebits', 'spec'), C('lex', 'full', 'tie', only=('parse',))]),
     'C04': dict(suites=[('validate', 3000, 100000), ('names', 300, 20000), ('lex', 1000, 20000)],
                 cmps=[C('validate', 'accept', 'spec'), C('names', 'full', 'tie'), C('lex', 'full', 'tie', only=('pattern',))]),
     'C05': dict(suites=[('validate', 6000, 150000)], cmps=[C('validate', 'full', 'spec')]),
